@@ -568,6 +568,8 @@ def for_over(E, n, itv, st, out):
                 lo, hi = a
             else:
                 raise OutOfSubset("range with step")
+            _as_int = lambda v: VInt(z3.Function("py_int_of", PyObj, I)(v.t)) if isinstance(v, VObj) else v
+            lo, hi = _as_int(lo), _as_int(hi)
         elif kind == "zip":
             raise OutOfSubset("zip loop")
     # ---- concrete sequences: unroll
@@ -1025,8 +1027,13 @@ def verify(E, c, fnode=None, body=None, module=None):
             frame_goals(E, c, s1, args, h0)
         elif o.kind == "raise":
             s1.trace.append("exit:raise:%s" % o.exc)
+            if getattr(c, "exc_ensures", None):
+                post = SpecCtx(E, s1, args, h0, res=None)
+                post.exc = o.exc
+                for nm, f in c.exc_ensures(post):
+                    E.goal(s1, "excpost:%s" % nm, f, "post", o.node)
             allowed = [cond for exc, cond in c.raises if exc_is(o.exc, exc) is True]
-            if o.exc in c.may_raise or any(exc_is(o.exc, x) is True for x in c.may_raise):
+            if o.exc in c.may_raise or "Any" in c.may_raise or any(exc_is(o.exc, x) is True for x in c.may_raise):
                 continue
             if allowed:
                 E.goal(s1, "raise:%s:condition" % o.exc, z3.Or([cond(pre_at(E, s1, args, h0)) for cond in allowed]), "raise",
